@@ -15,6 +15,7 @@ import (
 	"verif/gen"
 	"verif/pbt"
 	"verif/sess"
+	"verif/val"
 )
 
 func TestMain(m *testing.M) {
@@ -47,6 +48,8 @@ type Input struct {
 	Def      *MacroDef   `json:"def,omitempty"`
 	MoreDefs []*MacroDef `json:"more_defs,omitempty"` // further definitions directly after Def, in the same input
 	Stmts    []*gen.Node `json:"stmts,omitempty"`     // with Def: statements of the same input, after the definitions
+	Panic    bool        `json:"panic,omitempty"`     // an input that ends in a recovered panic (depth limit), in both sessions
+	ViaEval  bool        `json:"via_eval,omitempty"`  // the input is handed to eval("...") instead of being typed
 }
 
 func (in Input) defs() []*MacroDef {
@@ -159,10 +162,33 @@ func check(c Case) error {
 	type expanded struct{ src, dump string }
 	var seen []expanded
 	for _, in := range c.Inputs {
+		if in.Panic {
+			const runaway = "func zrunaway(n) { zrunaway(n + 1) }; zrunaway(0)"
+			history = append(history, runaway)
+			if rp, rh := p.Run(runaway), h.Run(runaway); !rp.Failed() || !rh.Failed() {
+				return fmt.Errorf("harness: the runaway recursion did not fail")
+			}
+			continue
+		}
 		defSrc := ""
 		for _, d := range in.defs() {
 			defSrc += defSource(d) + "\n"
 			macros[d.Name] = d
+		}
+		if in.ViaEval {
+			// the same text through eval(): definitions and uses inside one string
+			src := defSrc + gen.Print(in.Stmts, gen.PrintOptions{})
+			hsrc := gen.Print(expandList(in.Stmts, macros), gen.PrintOptions{})
+			history = append(history, "eval("+val.StrSrc(src)+")")
+			rp, rh := p.Run("eval("+val.StrSrc(src)+")"), h.Run("eval("+val.StrSrc(hsrc)+")")
+			if sess.TimedOut(rp) || sess.TimedOut(rh) {
+				return nil
+			}
+			if rp.Out != rh.Out || rp.Echo != rh.Echo || rp.Failed() != rh.Failed() {
+				return fmt.Errorf("evaluation through eval() differs from the hand-substituted program\nprogram:  %s -> output %q echo %q errors %v\nexpected: %s -> output %q echo %q errors %v\nhistory: %s",
+					src, rp.Out, rp.Echo, rp.Errs, hsrc, rh.Out, rh.Echo, rh.Errs, strings.Join(history, " ;; "))
+			}
+			continue
 		}
 		if in.Def != nil && len(in.Stmts) == 0 {
 			history = append(history, defSrc)
@@ -358,7 +384,8 @@ func TestSessions(t *testing.T) {
 		}
 		// parameter names: plain ones, constant-style ones, and names that are also a macro, a global or a function
 		namePool := []string{"pa", "pb", "pc", "pd", "pa", "pb", "pc", "pd", "X", "PB", "N_1", "mac0", "mac1", "mac2", "g1", "pr", "x"}
-		var pending *Input // a definition input that the next definition joins (adjacent definitions in one input)
+		var pending *Input                                                 // a definition input that the next definition joins (adjacent definitions in one input)
+		firstViaEval := rapid.IntRange(0, 3).Draw(rt, "firstviaeval") == 0 // the session's first macro is defined and used inside an eval("...") string
 		for i := 0; i < nm; i++ {
 			k := rapid.IntRange(0, 4).Draw(rt, "k")
 			var params []string
@@ -389,6 +416,13 @@ func TestSessions(t *testing.T) {
 				c.Inputs = append(c.Inputs, Input{Def: d})
 			}
 			pending = nil
+			if i == 0 && firstViaEval {
+				in := &c.Inputs[len(c.Inputs)-1]
+				in.ViaEval = true
+				in.Stmts = useSite().Stmts
+				pbt.Label("session:first-macro-defined-and-used-inside-eval")
+				continue
+			}
 			switch rapid.IntRange(0, 3).Draw(rt, "defshape") {
 			case 0:
 				if i+1 < nm { // the next definition follows in the same input
@@ -402,6 +436,10 @@ func TestSessions(t *testing.T) {
 				}
 			}
 			for u := rapid.IntRange(1, 3).Draw(rt, "uses"); u > 0; u-- {
+				if rapid.IntRange(0, 5).Draw(rt, "panicbetween") == 0 {
+					c.Inputs = append(c.Inputs, Input{Panic: true})
+					pbt.Label("session:panic-between-definition-and-use")
+				}
 				c.Inputs = append(c.Inputs, useSite())
 			}
 		}
